@@ -29,11 +29,18 @@ func VerifRun_C15() {
 	form := verifConcretize(verifRange("form", 0, 5+verifParam("ALIASCYCLE")))
 	src := ""
 	line := 0
-	oneBlock := verifBool("oneBlock")
-	scope := []string{"", "public ", "protected ", "private "}[verifConcretize(verifRange("scope", 0, 3))] // documented visibility word, no effect on membership
+	simple := verifParamOr("SIMPLE", 0) == 1 // (job variants that vary something else keep the layout knobs fixed)
+	oneBlock := !simple && verifBool("oneBlock")
+	scope := ""
+	if !simple {
+		scope = []string{"", "public ", "protected ", "private "}[verifConcretize(verifRange("scope", 0, 3))] // documented visibility word, no effect on membership
+	}
 	// what stands directly above an annotation block: nothing, or a code line that ends in a trailing
 	// comment (which is that line's comment, not the beginning of the block below it)
-	above := verifConcretize(verifRange("above", 0, 2))
+	above := 0
+	if !simple {
+		above = verifConcretize(verifRange("above", 0, 2))
+	}
 	if above == 2 {
 		src += "local w0 = 1 -- note\n"
 		line++
